@@ -8,6 +8,7 @@ import (
 	"testing"
 
 	"github.com/MixinNetwork/mixin/common"
+	"github.com/MixinNetwork/mixin/config"
 	"github.com/MixinNetwork/mixin/crypto"
 	"github.com/MixinNetwork/mixin/storage"
 	"pgregory.net/rapid"
@@ -91,6 +92,9 @@ var vpC28OutputOf = map[uint8]uint8{
 // the batch and reference rules look at types, references and hashes only).
 // salt makes the hash unique. When mixed is true a second, different marker is
 // added behind the class-defining one (the first marker decides the class).
+// vpC28LegacyMint biases generated mint batches to the legacy range (set by a test around its draws).
+var vpC28LegacyMint bool
+
 func vpC28Tx(t *rapid.T, cl vpC28Class, refs []crypto.Hash, salt uint64, mixed bool) *common.VersionedTransaction {
 	asset := common.XINAssetId
 	if rapid.Bool().Draw(t, "other_asset") {
@@ -102,7 +106,12 @@ func vpC28Tx(t *rapid.T, cl vpC28Class, refs []crypto.Hash, salt uint64, mixed b
 	}
 	switch cl.typ {
 	case common.TransactionTypeMint:
-		tx.AddUniversalMintInput(uint64(rapid.IntRange(1707, 9000).Draw(t, "mint_batch")), common.NewInteger(uint64(rapid.IntRange(1, 90).Draw(t, "mint_amount"))))
+		batch := uint64(rapid.IntRange(1707, 9000).Draw(t, "mint_batch"))
+		if vpC28LegacyMint {
+			// batches of the first new-kernel year, which mainnet nodes take from peers without re-deriving the amount
+			batch = uint64(rapid.IntRange(1707, 1801).Draw(t, "legacy_mint_batch"))
+		}
+		tx.AddUniversalMintInput(batch, common.NewInteger(uint64(rapid.IntRange(1, 90).Draw(t, "mint_amount"))))
 		tx.Outputs = append(tx.Outputs, vpC28Output(t, common.OutputTypeScript, 0))
 	case common.TransactionTypeDeposit:
 		tx.Inputs = append(tx.Inputs, &common.Input{Deposit: &common.DepositData{
@@ -376,14 +385,27 @@ type vpC28Op struct {
 
 func TestVP_C28_refs_chain(t *testing.T) {
 	c := kit.New(t, "C28", "rapid: per case a recorded consensus history (fake store serving ReadLastConsensusSnapshot) is extended by 4..12 proposals; each proposal is a single structurally typed transaction (7 consensus classes, sometimes a batchable one) whose references are {last op, last op + extra, an older op, random, none, [random,last], [older,last]} and whose snapshot timestamp is {last-1, last, last+1, later, 0, much earlier}, or the recorded last op itself again; oracle: validateConsensusTransactionReferences nil for a consensus class => tx is the recorded last op, or References[0] = last op and timestamp > last timestamp; accepted new ops are recorded (as WriteConsensusSnapshot would) and the recorded history must stay one chain; non-trivial = >=3 chained ops and >=1 rejected; distinct by the (class, reference mode, timestamp mode, verdict) sequence")
-	c.Require("chained>=3&rejected>=1", "accept:chain", "accept:replay-last", "reject:ref-older", "reject:ref-random", "reject:ref-none", "reject:ref-last-not-first", "reject:ts-equal", "reject:ts-earlier", "batchable-unchecked", "class:mint", "class:node-pledge", "class:node-accept", "class:node-remove", "class:node-cancel", "class:custodian-update", "class:custodian-slash")
+	c.Require("chained>=3&rejected>=1", "accept:chain", "accept:replay-last", "reject:ref-older", "reject:ref-random", "reject:ref-none", "reject:ref-last-not-first", "reject:ts-equal", "reject:ts-earlier", "batchable-unchecked", "class:mint", "class:node-pledge", "class:node-accept", "class:node-remove", "class:node-cancel", "class:custodian-update", "class:custodian-slash", "validator-accepted-mainnet-legacy-mint")
 	c.Assume("the store's last consensus record exists (non-mainnet network; the mainnet bootstrap fallback of ReadLastConsensusSnapshotWithHack is not exercised)")
 	kit.SetChecks(kit.N(3000, 100000))
 	var salt uint64 = 1 << 50
 	rapid.Check(t, func(t *rapid.T) {
 		store := &vpC28Store{}
 		node := &Node{networkId: vpC28Hash(t, "network"), IdForNetwork: vpC28Hash(t, "me"), persistStore: store}
+		// a third of the histories run under the main network id, where the
+		// validator has legacy shortcuts; the reference rule holds there as well
+		// for every snapshot after the fork time
+		mainnet := rapid.IntRange(0, 2).Draw(t, "mainnet") == 0
+		if mainnet {
+			nid, _ := crypto.HashFromString(config.KernelNetworkId)
+			node.networkId = nid
+		}
+		vpC28LegacyMint = mainnet
+		defer func() { vpC28LegacyMint = false }()
 		t0 := uint64(rapid.Int64Range(1_700_000_000_000_000_000, 1_790_000_000_000_000_000).Draw(t, "t0"))
+		if mainnet && t0 < mainnetConsensusReferenceForkAt && rapid.IntRange(0, 3).Draw(t, "after_fork") != 0 {
+			t0 += 40_000_000_000_000_000
+		}
 		salt++
 		genesis := vpC28Tx(t, vpC28Classes[6], nil, salt, false) // a node accept, as a genesis ledger ends with
 		hist := []vpC28Op{{genesis, t0}}
@@ -406,6 +428,13 @@ func TestVP_C28_refs_chain(t *testing.T) {
 				cl = vpC28Classes[rapid.IntRange(0, 3).Draw(t, "batchable_class")]
 			} else {
 				cl = vpC28Classes[rapid.IntRange(4, 10).Draw(t, "consensus_class")]
+			}
+			if mainnet && rapid.Bool().Draw(t, "mainnet_mint") {
+				for _, k := range vpC28Classes {
+					if k.typ == common.TransactionTypeMint {
+						cl = k
+					}
+				}
 			}
 			refMode := rapid.SampledFrom([]string{"last", "last", "last", "last", "last+extra", "older", "random", "none", "last-not-first", "older-then-last", "replay-last"}).Draw(t, "ref_mode")
 			if refMode == "replay-last" && len(hist) < 2 && rapid.Bool().Draw(t, "skip_genesis_replay") {
@@ -487,6 +516,29 @@ func TestVP_C28_refs_chain(t *testing.T) {
 				// not a consensus operation: the rule does not apply
 				classSet["batchable-unchecked"]++
 				continue
+			}
+			// the same rule as seen through the snapshot validator that calls it:
+			// whatever validateKernelSnapshot lets through (most classes fail their
+			// own validation against this skeleton store, legacy mints on the main
+			// network do not) obeys the reference rule, except finalized main
+			// network snapshots from before the fork time
+			{
+				fin := rapid.Bool().Draw(t, "finalized")
+				var verr error
+				pnc := vpKCatch(func() {
+					verr = node.validateKernelSnapshot(s, map[crypto.Hash]*common.VersionedTransaction{tx.PayloadHash(): tx}, fin)
+				})
+				if pnc == nil && verr == nil && !(mainnet && fin && s.Timestamp < mainnetConsensusReferenceForkAt) {
+					isLast := tx.PayloadHash() == ltx
+					chained := len(tx.References) > 0 && tx.References[0] == ltx && s.Timestamp > last.ts
+					if !isLast && !chained {
+						t.Fatalf("step %d: validateKernelSnapshot(finalized=%v, mainnet=%v) accepted a %s op with refs=%s ts=%s (last ts %d, op ts %d): neither the recorded last op nor chained to it", step, fin, mainnet, cl.name, refMode, tsMode, last.ts, ts)
+					}
+					classSet["validator-accepted"]++
+					if mainnet {
+						classSet["validator-accepted-mainnet-legacy-mint"]++
+					}
+				}
 			}
 			if err == nil {
 				isLast := tx.PayloadHash() == ltx
